@@ -25,7 +25,8 @@ ModelStep(o) ==      \* [rows, uids, uid, exists, writer, ret] after operation o
   CASE o.name = "start" -> [rows |-> IF o.mode = "exists" THEN <<H, <<2, 1>>>> ELSE <<>>, exists |-> o.mode = "exists",
                             uids |-> IF o.mode = "exists" THEN Blank(2) ELSE <<>>, uid |-> -1, writer |-> "none", ret |-> None]
     [] o.name = "csv" -> LET r2 == IF o.mode = "w" THEN <<H>> \o Rows(o.d) ELSE IF exists THEN rows \o Rows(o.d) ELSE rows \o <<H>> \o Rows(o.d)
-                         IN [rows |-> r2, uids |-> Blank(Len(r2)), uid |-> uid, exists |-> TRUE, writer |-> writer, ret |-> None]
+                         IN [rows |-> r2, uids |-> IF o.mode = "w" THEN Blank(Len(r2)) ELSE uids \o Blank(Len(r2) - Len(rows)),
+                             uid |-> uid, exists |-> TRUE, writer |-> writer, ret |-> None]
     [] o.name = "winit" -> LET r2 == IF o.mode = "w" THEN <<H>> ELSE IF exists THEN rows ELSE <<H>>
                            IN [rows |-> r2, uids |-> IF o.mode = "w" \/ ~exists THEN Blank(Len(r2)) ELSE uids,
                                uid |-> IF o.d = 0 THEN -1 ELSE o.d, exists |-> TRUE, writer |-> "open", ret |-> None]
